@@ -136,7 +136,7 @@ func cryptoStreams(c *mon.Ctx, h *hostile.Harness) {
 	})
 
 	// aggregate verification
-	c.Cases("bls-aggregate", c.N(6000, 400000), func(k *mon.Case) {
+	c.Cases("bls-aggregate", c.N(6000, 100000), func(k *mon.Case) {
 		r := k.R
 		sizes := []int{0, 1, 2, 7, 8, 9, 10, 15, 16, 17, 33, 64, 65}
 		n := sizes[r.Intn(len(sizes))]
